@@ -36,7 +36,8 @@ from contracts import c05 as _c05  # noqa: E402
 
 from contracts import c03 as _c03  # noqa: E402
 
-CONTRACTS += [_c05.bcrypt_2_contract] + [c for c in _c03.CONTRACTS if c.id == "utf8_repeat_string"]  # the published $2$ variant cycles the key without terminator: emulated by repetition (shared with C05)
+CONTRACTS += [_c05.bcrypt_2_contract] + [c for c in _c03.CONTRACTS if c.id == "utf8_repeat_string"]
+LEMMAS = [l for l in _c03.LEMMAS if l.id == "utf8-repeat-whole-copies"]  # the published $2$ variant cycles the key without terminator: emulated by repetition (shared with C05)
 FINITE = [_mq.cisco_finite, Finite("transposition-tables-published-order", md5crypt.published_tables, "md5-crypt / sha256-crypt / sha512-crypt transposition tables (passlib and libpass) equal the output order of the published algorithms"),
           Finite("sha-crypt-tables-identical", shacrypt.tables_equal, "passlib and libpass carry identical _c_digest_offsets / transposition tables")]
 BOUNDED = [Bounded("c02", "harness/c02.py", descr="~85 formats against independent references, crypt(3), Django, bcrypt, hashlib.scrypt", timeout=900)]
